@@ -18,6 +18,8 @@ import (
 var c11Forms = []string{
 	"rel", "dot-rel", "sub-rel", "parent-escape", "abs-path", "file-url", "http-url", "https-url", "scheme-relative",
 	"other-host-same-path-http", "other-host-same-path-scheme-relative", "same-name-other-dir",
+	// the root's own name in another letter case, in the root's directory: a different file
+	"own-name-in-another-letter-case",
 }
 
 func c11RefString(form, rootLoc string, frag bool) string {
@@ -57,6 +59,8 @@ func c11RefString(form, rootLoc string, frag bool) string {
 		return "//evil.example" + rootPath
 	case "same-name-other-dir":
 		return "elsewhere/" + path.Base(rootPath)
+	case "own-name-in-another-letter-case":
+		return strings.ToUpper(path.Base(rootPath))
 	}
 	panic(form)
 }
